@@ -3,12 +3,13 @@
 # scratch worktree, then run the quick checks of C01..C19 with the change applied to /repo (always reverted).
 cd /verif
 mkdir -p work/mutlog
+MD="${MUTDIR:-MUTANTS}"; LETTERS="${LETTERS:-A B}"
 for P in "$@"; do
-  for X in A B; do
-    [ -f /tmp/wt-$P/MUTANTS/$X.diff ] || continue
+  for X in $LETTERS; do
+    [ -f /tmp/wt-$P/$MD/$X.diff ] || continue
     LOG=work/mutlog/${P}_$X.txt
-    { tools/confirm_mutant.sh /tmp/wt-$P $X
-      python3 tools/selftest.py /tmp/wt-$P/MUTANTS/$X.diff C01 C02 C03 C04 C05 C06 C07 C08 C09 C10 C11 C12 C13 C14 C15 C16 C17 C18 C19
+    { tools/confirm_mutant.sh /tmp/wt-$P $X $MD
+      python3 tools/selftest.py /tmp/wt-$P/$MD/$X.diff C01 C02 C03 C04 C05 C06 C07 C08 C09 C10 C11 C12 C13 C14 C15 C16 C17 C18 C19
     } > $LOG 2>&1
     echo "done $P $X"
   done
